@@ -11,6 +11,10 @@
 (* Only what the operations DEFINE is modelled - no allocation detail.  Index arguments recorded in    *)
 (* `op` are the 0-based indices of the C API; sequences here are 1-based.                              *)
 (*                                                                                                     *)
+(* Two next-state relations over the same actions: Next (all operands, model checking: MC_Containers_*.cfg,   *)
+(* one run per container family selected by Kinds, histories of at most Depth calls) and GenNext (one call  *)
+(* per operation kind with randomly drawn operands, simulate mode: GEN_Containers.cfg, exported by Emit).   *)
+(*                                                                                                     *)
 (* Alphabet discipline (DESIGN C14): an operation is an action only where its contract is unambiguous. *)
 (* Left out on purpose (listed again in the evidence): TensorAppendRow, TensorAppendMatrixAt,          *)
 (* NewDVectorList(n>0), DVectNorm, MatrixDeleteRowAt/ColAt with an invalid index, setStr/getStr out of *)
@@ -221,7 +225,7 @@ SvSet(x, i, s) == /\ On("sv") /\ SLive(x) /\ i < Len(sv[x].d)
                   /\ op' = O("setStr", "in", {R("sv", x)}, {}, {R("sv", x)}, [x |-> x, i |-> i, s |-> s])
                   /\ UNCHANGED oSv
 SvGet(x, i) == /\ On("sv") /\ SLive(x) /\ i < Len(sv[x].d) /\ sv[x].d[i + 1] # UNSET
-               /\ op' = O("getStr", "in", {R("sv", x)}, {}, {}, [x |-> x, i |-> i, ret |-> sv[x].d[i + 1]])
+               /\ op' = O("getStr", "in", {R("sv", x)}, {}, {}, [x |-> x, i |-> i, rets |-> sv[x].d[i + 1]])
                /\ UNCHANGED conts
 \* StrVectorExtend(a, b): a NEW strvector holding copies of a's then b's strings
 SvExtend(a, b, y) == /\ On("sv") /\ SLive(a) /\ SLive(b) /\ ~SLive(y) /\ AllSet(a) /\ AllSet(b)
@@ -292,11 +296,11 @@ MxGetColOor(x, j) == /\ On("mx") /\ MLive(x) /\ j >= mx[x].col
 \* the operand v is a vector built for the call (dvector for Row/Col, uivector for UIRow/UICol), any length
 MxAppendRow(x, v, ui) == /\ On("mx") /\ MLive(x) /\ mx[x].row < MaxDim
                          /\ mx' = [mx EXCEPT ![x] = MAppendRow(@, v)]
-                         /\ op' = O(IF ui THEN "MatrixAppendUIRow" ELSE "MatrixAppendRow", Rel(Len(v), mx[x].col), {R("mx", x)}, {}, {R("mx", x)}, [x |-> x, v |-> v])
+                         /\ op' = O(IF ui THEN "MatrixAppendUIRow" ELSE "MatrixAppendRow", Rel(Len(v), mx[x].col), {R("mx", x)}, {}, {R("mx", x)}, [x |-> x, vs |-> v])
                          /\ UNCHANGED oMx
 MxAppendCol(x, v, ui) == /\ On("mx") /\ MLive(x) /\ mx[x].col < MaxDim
                          /\ mx' = [mx EXCEPT ![x] = MAppendCol(@, v)]
-                         /\ op' = O(IF ui THEN "MatrixAppendUICol" ELSE "MatrixAppendCol", Rel(Len(v), mx[x].row), {R("mx", x)}, {}, {R("mx", x)}, [x |-> x, v |-> v])
+                         /\ op' = O(IF ui THEN "MatrixAppendUICol" ELSE "MatrixAppendCol", Rel(Len(v), mx[x].row), {R("mx", x)}, {}, {R("mx", x)}, [x |-> x, vs |-> v])
                          /\ UNCHANGED oMx
 \* delete with a valid index only (an invalid one is outside "valid operations": it is not an accessor)
 MxDelRow(x, k) == /\ On("mx") /\ MLive(x) /\ k < mx[x].row
@@ -360,7 +364,7 @@ TnAppendMatrix(x, r, c, f) == /\ On("tn") /\ TLive(x) /\ Filled(x) /\ Order(x) <
 \* TensorAppendColumn(t, k, v) is MatrixAppendCol on layer k
 TnAppendCol(x, k, v) == /\ On("tn") /\ TLive(x) /\ Filled(x) /\ k < Order(x) /\ tn[x].m[k + 1].col < MaxDim
                         /\ tn' = [tn EXCEPT ![x].m[k + 1] = MAppendCol(@, v)]
-                        /\ op' = O("TensorAppendColumn", Rel(Len(v), tn[x].m[k + 1].row), {R("tn", x)}, {}, {R("tn", x)}, [x |-> x, k |-> k, v |-> v])
+                        /\ op' = O("TensorAppendColumn", Rel(Len(v), tn[x].m[k + 1].row), {R("tn", x)}, {}, {R("tn", x)}, [x |-> x, k |-> k, vs |-> v])
                         /\ UNCHANGED oTn
 TnFill(x, v) == /\ On("tn") /\ TLive(x) /\ Filled(x)
                 /\ tn' = [tn EXCEPT ![x].m = [k \in 1..Len(@) |-> ConstM(@[k].row, @[k].col, v)]]
@@ -387,7 +391,7 @@ DlNew0(x) == /\ On("dl") /\ ~LLive(x)
 \* DVectorListAppend(l, v): a deep copy of v becomes the last element
 DlAppend(x, v) == /\ On("dl") /\ LLive(x) /\ Len(dl[x].d) < MaxDim
                   /\ dl' = [dl EXCEPT ![x].d = Append(@, v)]
-                  /\ op' = O("DVectorListAppend", IF Len(dl[x].d) = 0 THEN "dst-empty" ELSE Rel(Len(v), Len(dl[x].d[Len(dl[x].d)])), {R("dl", x)}, {}, {R("dl", x)}, [x |-> x, v |-> v])
+                  /\ op' = O("DVectorListAppend", IF Len(dl[x].d) = 0 THEN "dst-empty" ELSE Rel(Len(v), Len(dl[x].d[Len(dl[x].d)])), {R("dl", x)}, {}, {R("dl", x)}, [x |-> x, vs |-> v])
                   /\ UNCHANGED oDl
 DlDel(x) == /\ On("dl") /\ LLive(x)
             /\ dl' = [dl EXCEPT ![x] = DeadL]
@@ -475,9 +479,9 @@ RowGrowth(o, n, v) == /\ n.row = o.row + 1 /\ n.col = Max(o.col, Len(v))
 ColGrowth(o, n, v) == /\ n.col = o.col + 1 /\ n.row = Max(o.row, Len(v))
                       /\ \A i \in 1..n.row : \A j \in 1..o.col : n.cell[i][j] = IF i <= o.row THEN o.cell[i][j] ELSE 0
                       /\ \A i \in 1..n.row : n.cell[i][n.col] = IF i <= Len(v) THEN v[i] ELSE 0
-GrowthLaw == [][/\ op'.name \in {"MatrixAppendRow", "MatrixAppendUIRow"} => RowGrowth(mx[op'.a.x], mx'[op'.a.x], op'.a.v)
-                /\ op'.name \in {"MatrixAppendCol", "MatrixAppendUICol"} => ColGrowth(mx[op'.a.x], mx'[op'.a.x], op'.a.v)
-                /\ op'.name = "TensorAppendColumn" => ColGrowth(tn[op'.a.x].m[op'.a.k + 1], tn'[op'.a.x].m[op'.a.k + 1], op'.a.v)
+GrowthLaw == [][/\ op'.name \in {"MatrixAppendRow", "MatrixAppendUIRow"} => RowGrowth(mx[op'.a.x], mx'[op'.a.x], op'.a.vs)
+                /\ op'.name \in {"MatrixAppendCol", "MatrixAppendUICol"} => ColGrowth(mx[op'.a.x], mx'[op'.a.x], op'.a.vs)
+                /\ op'.name = "TensorAppendColumn" => ColGrowth(tn[op'.a.x].m[op'.a.k + 1], tn'[op'.a.x].m[op'.a.k + 1], op'.a.vs)
                 /\ op'.name \in {"ResizeMatrix", "NewMatrix"} => mx'[op'.a.x] = ConstM(op'.a.r, op'.a.c, 0)
                 /\ op'.name \in {"DVectorAppend", "UIVectorAppend", "IVectorAppend"} =>
                       \E k \in VKinds : /\ Fn[k].cAppend = op'.name
@@ -598,6 +602,8 @@ GenDl ==
 
 GenNext == (\E k \in VKinds : GenVec(k)) \/ GenSv \/ GenMx \/ GenTn \/ GenDl
 GenSpec == Init /\ [][GenNext]_vars
+\* every generated call is a step of the model-checked relation (checked on simulated behaviours, REF_Containers.cfg)
+GenRefinesNext == [][Next]_vars
 
 (* what the replay harness needs: the call, and the shadow value of every slot the call may have changed *)
 Touched(k) == {x \in Pool : <<k, x>> \in op.touched}
